@@ -171,7 +171,7 @@ TEXT = {
         "technique": "Lean 4 proof for ParseType and for the expression fragment with positions (erasure to the proved expression model; function-for-function parser model with positions, grammar as an inductive relation, lexer window/concatenation theorems) + TYPE correspondence channel + property predicate evaluated on the implementation (corpus, reference grammar G, grafts, edits, mutations)",
     },
     "C08": {
-        "level": "Proof (partial: a fragment). Explored on the real entry points: every golden input not marked !bad_ (the maintainers' rendering of each documented production) and its keyword/pseudo-keyword re-casings through the specific entry point and ParseStatement (equal trees), and ';'-joined lists through the list entry points. Plus the reference grammar G written from the documentation (harness/grammar*.go: 202 non-terminals, 504 alternatives; systematic enumeration of every alternative, every optional on/off, list lengths min..min+2, keyword-like identifiers in both cases, and seeded random derivations: 12 k sentences quick / 146 k thorough), each sentence through its entry point and ParseStatement with equal trees and with the lexer's tokens compared to the generator's own terminal list. Ten documented forms that memefish rejects are recorded findings (G-known:*), ten others were repaired. Proved for the ParseType entry point: the documented type grammar G_T (MF/Spec/TypeGrammar.lean, over token kinds, '>>' and '<>' standing for two one-byte tokens) is exactly what the model of ParseType accepts and the tree returned is the derivation tree: soundness (type_sound), completeness for ALL derivations with a concrete fuel (type_complete, type_complete_tree), unambiguity (type_unique), the two as one equivalence (type_accepts_iff); no side condition: since the repair of lookaheadSimpleType a named type whose first path component reads as a simple type name (date.T, string.x) is accepted as G_T says. The model is tied to memefish.ParseType by the TYPE channel (all type texts up to a size bound in six spellings, all token sequences up to length 4 / 6 over the type vocabulary, mutations, soups). Proved for the SELECT core of ParseQuery / ParseStatement (Task X, model MF/Model/Query.lean tied to the code by the QUERY channel on every run): an accepted token list is the yield of the returned tree and a derivation of the documented grammar G_Q (MF.Props.C08.query_sound, query_sound_top), and on inputs starting with SELECT the statement entry point returns exactly the query entry point's answer (query_entry_points_agree). Completeness for the SELECT core (Task X): every sentence of G_Q without the expr.* production, read by a token list without unquoted SAFE_CAST / REPLACE_FIELDS identifiers and followed by <eof>, is accepted by ParseQuery and by ParseStatement with the same tree (MF.Props.C08.query_complete_partial, query_complete_statement_partial; side conditions shown necessary by complete_needs_castfree, trailing_comma_placement).",
+        "level": "Proof (partial: a fragment). Explored on the real entry points: every golden input not marked !bad_ (the maintainers' rendering of each documented production) and its keyword/pseudo-keyword re-casings through the specific entry point and ParseStatement (equal trees), and ';'-joined lists through the list entry points. Plus the reference grammar G written from the documentation (harness/grammar*.go: 202 non-terminals, 504 alternatives; systematic enumeration of every alternative, every optional on/off, list lengths min..min+2, keyword-like identifiers in both cases, and seeded random derivations: 12 k sentences quick / 146 k thorough), each sentence through its entry point and ParseStatement with equal trees and with the lexer's tokens compared to the generator's own terminal list. Ten documented forms that memefish rejects are recorded findings (G-known:*), ten others were repaired. Proved for the ParseType entry point: the documented type grammar G_T (MF/Spec/TypeGrammar.lean, over token kinds, '>>' and '<>' standing for two one-byte tokens) is exactly what the model of ParseType accepts and the tree returned is the derivation tree: soundness (type_sound), completeness for ALL derivations with a concrete fuel (type_complete, type_complete_tree), unambiguity (type_unique), the two as one equivalence (type_accepts_iff); no side condition: since the repair of lookaheadSimpleType a named type whose first path component reads as a simple type name (date.T, string.x) is accepted as G_T says. The model is tied to memefish.ParseType by the TYPE channel (all type texts up to a size bound in six spellings, all token sequences up to length 4 / 6 over the type vocabulary, mutations, soups). Proved for the DML entry points, fragment M2 = INSERT [OR UPDATE|OR IGNORE] [INTO] path (columns) VALUES rows, DELETE [FROM] path [[AS] alias] WHERE expr, UPDATE path [[AS] alias] SET path = expr|DEFAULT, ... WHERE expr, expressions inside M1, no hint / THEN RETURN / sub-query input (model MF/Model/Stmt2.lean, one Lean function per Go function, tied to ParseDML, ParseDMLs, ParseStatement and ParseStatements by the DML channel: every field, position, Pos()/End(), SQL()): what the model accepts is a sentence of the documented grammar G_DML (MF/Spec/DMLGrammar.lean) and the tree is its derivation tree (MF.Props.C08.dml_sound), every derivation is accepted with its tree (dml_complete, eventual fuel; side condition inherited from C07: no unquoted SAFE_CAST / REPLACE_FIELDS identifier), G_DML is unambiguous (dml_unique), and the statement entry points build exactly the DML entry points' trees on DML texts (dml_entry_points_agree). Proved for the SELECT core of ParseQuery / ParseStatement (Task X, model MF/Model/Query.lean tied to the code by the QUERY channel on every run): an accepted token list is the yield of the returned tree and a derivation of the documented grammar G_Q (MF.Props.C08.query_sound, query_sound_top), and on inputs starting with SELECT the statement entry point returns exactly the query entry point's answer (query_entry_points_agree). Completeness for the SELECT core (Task X): every sentence of G_Q without the expr.* production, read by a token list without unquoted SAFE_CAST / REPLACE_FIELDS identifiers and followed by <eof>, is accepted by ParseQuery and by ParseStatement with the same tree (MF.Props.C08.query_complete_partial, query_complete_statement_partial; side conditions shown necessary by complete_needs_castfree, trailing_comma_placement).",
         "design_ref": "DESIGN.md §4 C08",
         "note": "Theorems cover the ParseType entry point, the expression fragment (C07) and the SELECT core of ParseQuery / ParseStatement, and are about the models (tied to the code by the LEX, TYPE, EXPR and QUERY channels); every other entry point and node kind is exploration. Known findings are listed in known-findings.txt.",
         "technique": "Lean 4 proof for ParseType (function-for-function parser model with positions, grammar as an inductive relation, soundness + completeness + uniqueness) and for the SELECT core of ParseQuery/ParseStatement (function-for-function model, soundness against the documented grammar, entry-point agreement) + TYPE/QUERY/EXPR correspondence channels + regenerated parser.go data (simpleTypes, parseType dispatch) + property predicate evaluated on the implementation (corpus, reference grammar G, grafts, edits, mutations)",
@@ -189,7 +189,8 @@ TEXT = {
         "level": "Proof (partial). Proved in Lean for every input: with the parseStatements loop, the lexer and the splitter modelled, for ANY statement parser that is Local (reads nothing behind its terminator, ';' and <eof> interchangeable) "
                  "the list entry point succeeds iff the single-statement parser succeeds on every token-containing piece of SplitRawStatements, with the same results in order (lists_compose, segments_pieces, compose); lexing a piece on its own, shifted to its offset, "
                  "gives exactly the tokens (kinds, values, positions, comments) the whole input has there (pieces_lex). Over regenerated facts: productions never test '== <eof>' except next to ';' (eof_sites). "
-                 "Not proved: that memefish's statement parser is Local — explored: lists of 1..4 and of 260/1200 statements against split + single-statement parses.",
+                 "Not proved: that memefish's statement parser is Local — explored: lists of 1..4 and of 260/1200 statements against split + single-statement parses. "
+                 "Proved for the DML fragment M2 (INSERT … VALUES, DELETE, UPDATE with expressions inside M1; model MF/Model/Stmt2.lean tied to ParseDML / ParseDMLs / ParseStatement / ParseStatements by the DML channel): the modelled DML statement parser is Local (MF.Props.C11.dml_local), so ParseDMLs succeeds iff ParseDML succeeds on every token-containing ';'-free segment, with equal trees (dml_lists_compose; dml_compose_model states the same directly for the model's own list loop, dml_lists_agree ties the two loops), a segment is accepted iff it is a sentence of the documented grammar G_DML (dml_segment), and with CoreInv (dml_coreInv) the end-to-end statement including lexer and splitter holds (dml_compose). Side condition throughout: no token reads as the unquoted identifiers SAFE_CAST / REPLACE_FIELDS (fragment boundary of M1).",
         "design_ref": "DESIGN.md §4 C11",
         "note": "Trusted: lexer and splitter models (LEX/SPLIT channels), the loop model in MF/Proofs/StmtList.lean (13 lines of Go), the facts translator.",
         "technique": "Lean 4 proof (abstract locality theorem + lexer truncation/shift invariance + splitter characterisation) + regenerated facts + predicate on the implementation",
